@@ -238,7 +238,9 @@ func c15Parallelize(c *Ctx) {
 		return true
 	})
 	if errsObj == nil {
-		c.Fail(rule, "errs", body.Pos(), "no local []error accumulator found in Parallelize")
+		// the accumulator is not a local of Parallelize (e.g. a small collector type with its own mutex): decide the
+		// same conditions on SSA, where the shape of the accumulator does not matter
+		c15ParallelizeSSA(c, rule, fr)
 		return
 	}
 	// adders: closures that append their parameter to errs
@@ -1020,4 +1022,253 @@ func rulePutForwarding(c *Ctx, rule string) int {
 		}
 	}
 	return nFwd
+}
+
+// c15ParallelizeSSA decides the PARALLELIZE conditions without assuming where the error list lives:
+//   - adders: functions of package thread that append to a []error location between Mutex.Lock and Mutex.Unlock;
+//   - every goroutine started by Parallelize passes the non-nil error of the job it runs to an adder, and calls
+//     WaitGroup.Done on every path (deferred or last);
+//   - every read of the error list - in Parallelize or in a package function it calls - happens after WaitGroup.Wait;
+//   - the value Parallelize returns derives from such a read.
+func c15ParallelizeSSA(c *Ctx, rule string, fr *FuncRef) {
+	p := c.P
+	sf := p.SSAFunc(fr.Obj)
+	if sf == nil {
+		c.Fail(rule, "errs", fr.Decl.Pos(), "Parallelize has no SSA body")
+		return
+	}
+	pkT := sf.Pkg
+	isErrSlice := func(t types.Type) bool {
+		sl, ok := t.Underlying().(*types.Slice)
+		return ok && isErrorType(sl.Elem())
+	}
+	isMutex := func(cc *ssa.CallCommon, name string) bool {
+		fn := staticCalleeObj(cc)
+		return fn != nil && (methodIs(fn, "sync", "Mutex", name) || methodIs(fn, "sync", "RWMutex", name))
+	}
+	isWG := func(cc *ssa.CallCommon, name string) bool {
+		fn := staticCalleeObj(cc)
+		return fn != nil && methodIs(fn, "sync", "WaitGroup", name)
+	}
+	// all functions of the package, with closures
+	var all []*ssa.Function
+	for _, m := range p.SSAFuncsOf([]*packages.Package{p.Pkg("private/pkg/thread")}) {
+		all = append(all, allSSAFuncs(m)...)
+	}
+	adders := map[*ssa.Function]bool{}
+	readers := map[*ssa.Function]bool{}
+	for _, f := range all {
+		if f.Pkg != pkT {
+			continue
+		}
+		for _, b := range f.Blocks {
+			for _, ins := range b.Instrs {
+				switch x := ins.(type) {
+				case *ssa.Store:
+					pt, ok := x.Addr.Type().Underlying().(*types.Pointer)
+					if !ok || !isErrSlice(pt.Elem()) {
+						continue
+					}
+					if !dependsOnCall(x.Val, func(cc *ssa.CallCommon) bool { return isBuiltinCall(cc, "append") }) {
+						continue
+					}
+					locked, unlocked := false, false
+					for _, call := range callsIn(f) {
+						if isMutex(call.Call, "Lock") && instrDominates(call.Instr, x) {
+							locked = true
+						}
+						if isMutex(call.Call, "Unlock") && instrDominates(x, call.Instr) {
+							unlocked = true
+						}
+					}
+					for _, bb := range f.Blocks {
+						for _, i2 := range bb.Instrs {
+							if d, ok := i2.(*ssa.Defer); ok && isMutex(&d.Call, "Unlock") {
+								unlocked = true
+							}
+						}
+					}
+					c.Ob(rule, "errs-write-locked", x.Pos(), locked && unlocked, true, "append to the error list in %s is dominated by Mutex.Lock and followed by Unlock: %v", ssaFuncName(f), locked && unlocked)
+					adders[f] = true
+				case *ssa.UnOp:
+					if x.Op == token.MUL && isErrSlice(x.Type()) {
+						readers[f] = true
+					}
+				}
+			}
+		}
+	}
+	for f := range adders {
+		delete(readers, f)
+	}
+	c.Ob(rule, "adder-exists", fr.Decl.Pos(), len(adders) > 0, false, "%d function(s) append to the error list under the mutex", len(adders))
+	if len(adders) == 0 {
+		c.Fail(rule, "errs", fr.Decl.Pos(), "no function of package thread appends to a []error under a mutex")
+		return
+	}
+	callsAdder := func(call ssaCall) (ssa.Value, bool) {
+		callee := call.Call.StaticCallee()
+		if callee != nil && adders[callee] {
+			for _, a := range call.Call.Args {
+				if isErrorType(a.Type()) {
+					return a, true
+				}
+			}
+		}
+		// a closure variable bound to an adder
+		if callee == nil && !call.Call.IsInvoke() {
+			hit := false
+			sliceBack(call.Call.Value, func(x ssa.Value) bool {
+				if mc, ok := x.(*ssa.MakeClosure); ok && adders[mc.Fn.(*ssa.Function)] {
+					hit = true
+				}
+				return !hit
+			})
+			if hit {
+				for _, a := range call.Call.Args {
+					if isErrorType(a.Type()) {
+						return a, true
+					}
+				}
+			}
+		}
+		return nil, false
+	}
+	// goroutines
+	nGo := 0
+	for _, f := range allSSAFuncs(sf) {
+		for _, b := range f.Blocks {
+			for _, ins := range b.Instrs {
+				gs, ok := ins.(*ssa.Go)
+				if !ok {
+					continue
+				}
+				nGo++
+				var body *ssa.Function
+				switch v := gs.Call.Value.(type) {
+				case *ssa.MakeClosure:
+					body = v.Fn.(*ssa.Function)
+				case *ssa.Function:
+					body = v
+				}
+				if body == nil {
+					c.Ob(rule, "go-literal", gs.Pos(), false, false, "go statement does not run a literal or a function: cannot decide error collection")
+					continue
+				}
+				recorded := false
+				for _, g := range allSSAFuncs(body) {
+					for _, call := range callsIn(g) {
+						arg, ok := callsAdder(call)
+						if !ok {
+							continue
+						}
+						// the argument is the error of a job call, on its non-nil edge
+						fromJob := false
+						if jc, ok := stripConv(arg).(*ssa.Call); ok && jc.Call.StaticCallee() == nil && !jc.Call.IsInvoke() {
+							fromJob = true
+						}
+						if fromJob && !onNilEdgeOf(call.Instr.Block(), stripConv(arg)) {
+							for _, ge := range guardingEdges(call.Instr.Block()) {
+								if x, trueIsNonNil, ok := nilCompare(ge.If.Cond); ok && stripConv(x) == stripConv(arg) && ge.Branch == trueIsNonNil {
+									recorded = true
+								}
+							}
+						}
+					}
+				}
+				c.Ob(rule, "job-error-recorded", gs.Pos(), recorded, true, "goroutine body records the job's non-nil error through the locked adder: %v", recorded)
+				done := false
+				for _, bb := range body.Blocks {
+					for _, i2 := range bb.Instrs {
+						if d, ok := i2.(*ssa.Defer); ok && isWG(&d.Call, "Done") {
+							done = true
+						}
+					}
+				}
+				if !done {
+					okAll := true
+					nret := 0
+					for _, r := range returnsOf(body) {
+						nret++
+						dom := false
+						for _, call := range callsIn(body) {
+							if isWG(call.Call, "Done") && instrDominates(call.Instr, r) {
+								dom = true
+							}
+						}
+						if !dom {
+							okAll = false
+						}
+					}
+					done = okAll && nret > 0
+				}
+				c.Ob(rule, "wg-done-all-paths", gs.Pos(), done, true, "WaitGroup.Done runs on every path of the job goroutine")
+			}
+		}
+	}
+	c.Ob(rule, "go-sites", fr.Decl.Pos(), nGo >= 1, false, "%d go statements", nGo)
+	// reads after Wait
+	reads := 0
+	for _, b := range sf.Blocks {
+		for _, ins := range b.Instrs {
+			isRead := false
+			if u, ok := ins.(*ssa.UnOp); ok && u.Op == token.MUL && isErrSlice(u.Type()) {
+				isRead = true
+			}
+			if call, ok := ins.(*ssa.Call); ok {
+				if callee := call.Call.StaticCallee(); callee != nil && readers[callee] {
+					isRead = true
+				}
+			}
+			if !isRead {
+				continue
+			}
+			reads++
+			dom := false
+			for _, call := range callsIn(sf) {
+				if isWG(call.Call, "Wait") && instrDominates(call.Instr, ins) {
+					dom = true
+				}
+			}
+			c.Ob(rule, "wait-before-read", ins.Pos(), dom, true, "read of the error list is dominated by WaitGroup.Wait: %v", dom)
+		}
+	}
+	if reads == 0 {
+		c.Fail(rule, "wait-before-read", fr.Decl.Pos(), "the error list is never read after the jobs ran")
+	}
+	// the result derives from a read
+	okRes := false
+	for _, r := range returnsOf(sf) {
+		if len(r.Results) == 1 && (dependsOnCall(r.Results[0], func(cc *ssa.CallCommon) bool {
+			callee := cc.StaticCallee()
+			return callee != nil && readers[callee]
+		}) || func() bool {
+			hit := false
+			sliceBack(r.Results[0], func(x ssa.Value) bool {
+				if u, ok := x.(*ssa.UnOp); ok && u.Op == token.MUL && isErrSlice(u.Type()) {
+					hit = true
+				}
+				return !hit
+			})
+			return hit
+		}()) {
+			okRes = true
+		}
+	}
+	c.Ob(rule, "result-from-errs", fr.Decl.Pos(), okRes, true, "a return of Parallelize derives its value from the error list: %v", okRes)
+	// and inside a reader, nil is returned only when the list is empty
+	for f := range readers {
+		for _, r := range returnsOf(f) {
+			if len(r.Results) != 1 || !isErrorType(r.Results[0].Type()) || !isNilConst(r.Results[0]) {
+				continue
+			}
+			guardedByLen := false
+			for _, ge := range guardingEdges(r.Block()) {
+				if dependsOnCall(ge.If.Cond, func(cc *ssa.CallCommon) bool { return isBuiltinCall(cc, "len") }) {
+					guardedByLen = true
+				}
+			}
+			c.Ob(rule, "switch-len/"+f.Name()+"/nil", r.Pos(), guardedByLen, true, "a nil result of %s is guarded by a test of the list's length: %v", f.Name(), guardedByLen)
+		}
+	}
 }
